@@ -47,7 +47,7 @@ class Contract(object):
                  modifies=(), loops=None, trusted=False, kind='function', note='',
                  pure=False, defaults=None, exc_modifies=None, tags=(), must_fail=(), axioms=(),
                  ghost_at=None, rely=None, detached=None, yield_guarantee=(), inline=None, assumed=(),
-                 call_requires=None, local_types=None, seq_only=(), ghost_on_call=None):
+                 call_requires=None, local_types=None, seq_only=(), ghost_on_call=None, entry_assumes=()):
         self.qual = qual
         self.params = dict(params or {})
         self.ret = ret
@@ -80,6 +80,9 @@ class Contract(object):
         # names of ensures that talk about the whole heap / all other objects: valid for one call, NOT composable under
         # the parallel-for rule (several instances would contradict each other) -- the rule skips them
         self.seq_only = set(seq_only)   # local name -> Ty of an initially empty container literal
+        # facts assumed when the BODY is verified but not demanded from callers (a class invariant justified elsewhere,
+        # e.g. by a frame scan); reported in the evidence as assumptions
+        self.entry_assumes = list(entry_assumes)
         self.assumed = list(assumed)       # clauses assumed at call sites but NOT proved from the body (reported as assumptions)
         self.inline = inline               # pure accessor: result is exactly this spec expression (must also be an ensures)
         self.must_fail = list(must_fail)   # deliberately false postconditions (vacuity guard)
